@@ -290,3 +290,12 @@ pub open spec fn static_match_legacy(method: Seq<char>, uri: Seq<char>) -> bool 
     inside(uri) && fs_is_file(cwd() + uri) && !fs_is_dir(cwd() + uri) && fs_openable(cwd() + uri)
     && (method == METHOD.get@ || method == METHOD.head@ || (method == METHOD.options@ && uri != slash()))
 }
+
+// ASSUMED about the url-build-parse dependency (read off its source, conformance-tested): a URL of the form
+// "http://localhost/" ++ x always parses - the authority is the constant "localhost", the remainder starts with '/', so none of
+// parse_url's error branches can be taken
+#[verifier::external_body]
+pub proof fn axiom_url_slash_ok(x: Seq<char>)
+    ensures url_path_spec(request_url(slash() + x)).is_some(),
+{
+}
